@@ -18,6 +18,7 @@ class ConcreteEngine:
         self.path_info = {}
         self.stats = Stats()
         self.sz = {a: r for a, r in model.get('fn:SZ', [])}
+        self.pos = {a: r for a, r in model.get('fn:POS', [])}
         self.s_of = {a: r for a, r in model.get('fn:S', [])}
         self.sf_of = {a: r for a, r in model.get('fn:SF', [])}
         self.max_samples = 4
@@ -90,6 +91,9 @@ class ConcreteEngine:
 
     def hash_of(self, cid):
         return 'h%d' % cid
+
+    def pos_of(self, cid):
+        return self.pos.get(cid, 0)
 
     def check(self, name, cond, sig=None, info=None, fatal=True):
         self.stats.obligations += 1
